@@ -12,7 +12,7 @@ impl HasId for ::entrait::Impl<App> { fn id(&self) -> String { format!("app#{}",
 impl Marker for ::entrait::Impl<App> {}
 """
 
-ATTR = {"none": "pub T", "unimock": "pub T, mock_api = Mk, unimock", "mockall": "pub T, mockall", "export": "pub T, export",
+ATTR = {"none": "pub T", "unimock": "pub T, mock_api = Mk, unimock", "mock": "pub T, mock_api = Mk, unimock, export", "mockall": "pub T, mockall", "export": "pub T, export",
         "nosend": "pub T, ?Send"}
 
 
